@@ -71,6 +71,8 @@ def check(prog: Program, run: Run) -> None:
              "tests of the two encoder passes agree", floor=3)
     run.rule("C01.R7", "MIN-MAX-LENGTH: terminator presence and search agree between encoder and "
              "decoder", floor=3)
+    run.rule("C01.R8", "the atomic writer and reader lay out value bits, padding, byte order and "
+             "mask by the same formulas (shared with C02.R2)", floor=6)
     _pairing(prog, run)
     _positioning(prog, run)
     _recording(prog, run)
@@ -78,6 +80,9 @@ def check(prog: Program, run: Run) -> None:
     _case_coverage(prog, run)
     _same_walk(prog, run)
     _terminator(prog, run)
+    from . import c02
+    from .common import run_as
+    run_as(run, "C02.R2", "C01.R8", lambda r: c02._siblings(prog, r))
 
 
 # ----------------------------------------------------------------------- R1
